@@ -23,17 +23,17 @@ CLASSES = {
 # the two-generator machine (split, state and their daggers) is explored deeper: ties, longer normalisations
 TIE_TIERS = {"quick": {"MaxBoxes": 5, "MaxWidth": 2, "states": 250, "sim_num": 40, "sim_depth": 8, "sim_MaxBoxes": 6, "sim_MaxWidth": 3,
                        "spiral_cups": 2, "spiral_walks": 2, "spiral_depth": 4},
-             "thorough": {"MaxBoxes": 6, "MaxWidth": 3, "states": 8000, "sim_num": 1000, "sim_depth": 12, "sim_MaxBoxes": 8, "sim_MaxWidth": 3,
+             "thorough": {"MaxBoxes": 6, "MaxWidth": 3, "states": 1500, "sim_num": 300, "sim_depth": 12, "sim_MaxBoxes": 8, "sim_MaxWidth": 3,
                           "spiral_cups": 2, "spiral_walks": 2, "spiral_depth": 4}}
 # bounds of the rigid machine (its signature has 13 generators and as many daggers)
 RIGID_TIERS = {"quick": {"MaxBoxes": 2, "MaxWidth": 3, "states": 220, "sim_num": 80, "sim_depth": 8, "sim_MaxBoxes": 4, "sim_MaxWidth": 4},
-               "thorough": {"MaxBoxes": 3, "MaxWidth": 3, "states": 6000, "sim_num": 2000, "sim_depth": 12, "sim_MaxBoxes": 5, "sim_MaxWidth": 4}}
+               "thorough": {"MaxBoxes": 3, "MaxWidth": 3, "states": 1200, "sim_num": 500, "sim_depth": 12, "sim_MaxBoxes": 5, "sim_MaxWidth": 4}}
 
 TIERS = {
     "quick":    {"MaxBoxes": 3, "MaxWidth": 2, "states": 320, "sim_num": 150, "sim_depth": 10,
                  "sim_MaxBoxes": 5, "sim_MaxWidth": 4, "spiral_cups": 4, "spiral_walks": 24, "spiral_depth": 12},
-    "thorough": {"MaxBoxes": 3, "MaxWidth": 3, "states": 12000, "sim_num": 4000, "sim_depth": 14,
-                 "sim_MaxBoxes": 6, "sim_MaxWidth": 5, "spiral_cups": 5, "spiral_walks": 300, "spiral_depth": 25},
+    "thorough": {"MaxBoxes": 3, "MaxWidth": 3, "states": 2000, "sim_num": 800, "sim_depth": 14,
+                 "sim_MaxBoxes": 6, "sim_MaxWidth": 5, "spiral_cups": 5, "spiral_walks": 120, "spiral_depth": 25},
 }
 
 CANARY_OPS = {"C01": None, "C02": None, "C05": {"interchange"}, "C06": {"normal_form"}}
